@@ -39,10 +39,11 @@ pub fn layouts_for(rng: &mut Rng, n: usize, sequential_first: bool) -> Vec<Layou
         Layout::Remote(vec![2, 2, 2, 2]),
         Layout::Remote(vec![1, 1, 1, 5]),
         Layout::Remote(vec![3, 1]),
+        Layout::Remote(vec![2, 1, 1]),
     ];
     // always one odd local parallelism and one heterogeneous remote layout
     v.push(pool[rng.below(5) as usize].clone());
-    v.push(pool[5 + rng.below(9) as usize].clone());
+    v.push(pool[5 + rng.below(10) as usize].clone());
     while v.len() < n {
         v.push(rng.pick(&pool).clone());
     }
